@@ -144,8 +144,11 @@ def observe(expr):
     except (AssertionError, ValueError, RuntimeError, TypeError) as e:
         return {"err": type(e).__name__, "msg": str(e)[:200]}
     u = np.array(c.compute_unitary(), dtype=complex)
+    # evaluating is an observation: asking again must give the same matrix and must not disturb the parts
+    again = [np.array(c.compute_unitary(), dtype=complex) for _ in range(2)]
+    u_last = again[-1]
     flat = [[r[0], len(r)] for r, _ in c]
-    return {"U": u, "flat": flat, "lean": lj, "m": c.m}
+    return {"U": u_last, "U_first": u, "flat": flat, "lean": lj, "m": c.m}
 
 
 def lean_program_of(expr):
@@ -209,6 +212,10 @@ def judge(chk, expr, lean_reply=None):
         return ("violation", "rejects-admissible-program",
                 f"the real API raised {obs['err']} ({obs['msg']}) on a program whose ranges are all admissible",
                 {"program": expr})
+    if not np.allclose(obs["U_first"], obs["U"], rtol=core.TOL, atol=core.TOL):
+        return ("violation", "matrix-changes-on-reevaluation",
+                f"compute_unitary() called again on the same circuit returns a different matrix (max diff "
+                f"{float(np.max(np.abs(obs['U_first'] - obs['U']))):.3g})", {"program": expr})
     rep = lean_reply if lean_reply is not None else chk.lean.ask(obs["lean"])
     if "err" in rep:
         return ("violation", "accepts-inadmissible-program",
@@ -280,13 +287,136 @@ def shrink(chk, expr, sig):
     return cur
 
 
+# ------------------------------------------------------------------------------------------------
+# histories: circuits nested by reference keep growing after their parents were evaluated
+# ------------------------------------------------------------------------------------------------
+def gen_history(rng, n_circ, n_ops, max_m):
+    ms = sorted((rng.randint(1, max_m) for _ in range(n_circ)), reverse=True)
+    ops = []
+    for _ in range(n_ops):
+        r = rng.random()
+        i = rng.randrange(n_circ)
+        if r < 0.30:
+            ops.append({"op": "eval", "i": i})
+            continue
+        if r < 0.36:
+            ops.append({"op": "copy", "i": i})      # the copy becomes a new pool entry (never mutated afterwards)
+            continue
+        cands = [j for j in range(i + 1, n_circ) if ms[j] <= ms[i]]
+        if r < 0.70 or not cands:
+            leaf = gens.gen_leaf(rng, ms[i], kinds=("BS", "PS", "PERM", "U", "UH"))
+            ops.append({"op": "leaf", "i": i, "off": rng.randint(0, ms[i] - gens.leaf_width(leaf)), "leaf": leaf})
+        else:
+            j = rng.choice(cands)
+            ops.append({"op": rng.choice(["nest", "nest", "merge"]), "i": i, "j": j, "off": rng.randint(0, ms[i] - ms[j])})
+    ops += [{"op": "eval", "i": i} for i in range(n_circ)]
+    return {"ms": ms, "ops": ops}
+
+
+def run_history(chk, hist, count=True):
+    """-> failure tuple or None.  Mirror: pool[i] = list of (off, ('leaf', json) | ('ref', j) | ('tree', snapshot))."""
+    import perceval as pcvl
+    ms = hist["ms"]
+    real = [pcvl.Circuit(m) for m in ms]
+    pool = [[] for _ in ms]
+    sizes = list(ms)
+
+    def snap(i):
+        ops = []
+        for off, (k, x) in pool[i]:
+            c = x if k in ("leaf", "tree") else snap(x)
+            ops.append({"add": off, "merge": False, "c": c})
+        return {"circ": sizes[i], "ops": ops}
+
+    evaluated_parents = set()
+    for step, op in enumerate(hist["ops"]):
+        k = op["op"]
+        i = op["i"]
+        if k == "leaf":
+            obj = gens.build_leaf(op["leaf"])
+            real[i].add(op["off"], obj)
+            pool[i].append((op["off"], ("leaf", {"leaf": obj.m, "U": gens.leaf_matrix_json(obj)})))
+        elif k == "nest":
+            real[i].add(op["off"], real[op["j"]], merge=False)
+            pool[i].append((op["off"], ("ref", op["j"])))
+            if count:
+                chk.branch("hist-nest-by-reference")
+        elif k == "merge":
+            real[i].add(op["off"], real[op["j"]], merge=True)
+            if pool[op["j"]]:
+                pool[i].extend((op["off"] + o, item) for o, item in pool[op["j"]])
+            else:
+                pool[i].append((op["off"], ("ref", op["j"])))
+            if count:
+                chk.branch("hist-merge")
+        elif k == "copy":
+            real.append(real[i].copy())
+            pool.append([(0, ("tree", snap(i)))] if pool[i] else [])
+            sizes.append(sizes[i])
+        elif k == "eval":
+            lj = snap(i)
+            u = np.array(real[i].compute_unitary(), dtype=complex)
+            flat = [[r[0], len(r)] for r, _ in real[i]]
+            if count and i in evaluated_parents:
+                chk.branch("hist-reevaluated-after-growth")
+            evaluated_parents.add(i)
+            rep = chk.lean.ask(lj)
+            spec_u = oracle_matrix(lj) if lj["ops"] else np.eye(sizes[i], dtype=complex)
+            spec_flat = oracle_flat(lj)
+            where = {"history": hist, "step": step}
+            if "err" in rep:
+                return ("broken", "model-vs-code", f"model rejects a snapshot the real API built: {rep['err']}", where)
+            model_u = np.array(core.unmat(rep["U"]), dtype=complex)
+            if not np.allclose(u, spec_u, rtol=core.TOL, atol=core.TOL):
+                return ("violation", "matrix-not-product-after-history",
+                        f"after {step} operations compute_unitary() of circuit #{i} differs from the ordered product "
+                        f"of its current parts by {float(np.max(np.abs(u - spec_u))):.3g}", where)
+            if flat != spec_flat:
+                return ("violation", "iteration-ranges-after-history",
+                        f"after {step} operations iteration of circuit #{i} reports {flat}, parts are at {spec_flat}", where)
+            if not np.allclose(u, model_u, rtol=core.TOL, atol=core.TOL) or rep["flat"] != flat:
+                return ("broken", "model-vs-code", "Lean model and implementation disagree on a history snapshot "
+                        "but the direct oracle holds", where)
+    return None
+
+
+def handle_history(chk, hist):
+    res = run_history(chk, hist)
+    n_nest = sum(1 for o in hist["ops"] if o["op"] == "nest")
+    chk.count("history_len", len(hist["ops"]) // 5 * 5)
+    chk.case(("H", tuple(hist["ms"]), tuple((o["op"], o["i"], o.get("j"), o.get("off")) for o in hist["ops"])),
+             nontrivial=n_nest > 0, sample={"history": {"ms": hist["ms"], "ops": [(o["op"], o["i"], o.get("j")) for o in hist["ops"]][:10]}})
+    if res is None:
+        return
+    kind, sig, what, replay = res
+    ops = list(hist["ops"])
+    budget = 120
+    i = 0
+    while i < len(ops) and budget > 0:      # greedy shrinking: every sub-history is a legal history
+        cand = {"ms": hist["ms"], "ops": ops[:i] + ops[i + 1:]}
+        budget -= 1
+        try:
+            r = run_history(chk, cand, count=False)
+        except Exception:
+            r = None
+        if r is not None and r[1] == sig:
+            ops = cand["ops"]
+            kind, sig, what, replay = r
+        else:
+            i += 1
+    chk.fail(kind, sig, what, replay)
+
+
 def run(chk: core.Check):
     chk.rule = ("random construction programs (add int/tuple/list range, merge yes/no/default, //, //(i,c), @, "
                 "barrier, copy, leaf-started circuits, nested sub-circuits; 10% with one inadmissible range); "
                 "distinct = distinct (sizes, offsets, operations, nesting) signatures; non-trivial = contains a "
-                "nested sub-circuit attached at a non-zero offset somewhere")
+                "nested sub-circuit attached at a non-zero offset somewhere; every circuit is evaluated three times; "
+                "plus histories over a pool of circuits nested by reference/merged/copied which keep growing and are "
+                "re-evaluated in between (non-trivial = at least one nest by reference)")
     chk.assumptions = ["leaf matrices are taken from each leaf's own compute_unitary() (their correctness is C14)"]
-    chk.required_branches = ["merge", "nest", "floordiv", "matmul", "barrier", "copy", "lead-leaf", "rejected"]
+    chk.required_branches = ["merge", "nest", "floordiv", "matmul", "barrier", "copy", "lead-leaf", "rejected",
+                             "hist-nest-by-reference", "hist-merge", "hist-reevaluated-after-growth"]
     chk.lean = core.LeanDriver("C01")
     rng = chk.rng
     n = chk.pick(500, 12000)
@@ -303,6 +433,8 @@ def run(chk: core.Check):
         batch.append(expr)
     for expr in batch:
         handle(chk, expr)
+    for _ in range(chk.pick(120, 2500)):
+        handle_history(chk, gen_history(rng, rng.randint(2, 4), rng.randint(6, chk.pick(16, 30)), chk.pick(5, 7)))
 
 
 def count_ops(chk, e):
@@ -352,5 +484,8 @@ def load_corpus():
 def replay(chk, data):
     chk.lean = core.LeanDriver("C01")
     chk.rule = "replay of one stored program"
+    if "history" in data["replay"]:
+        handle_history(chk, data["replay"]["history"])
+        return
     expr = data["replay"]["program"]
     handle(chk, expr)
